@@ -381,7 +381,29 @@ def run(chk: Check, ctx: Any) -> None:
         f = repo.func(spec)
         loops = [n for n in walk_no_nested(f.node) if isinstance(n, ast.For)]
         if len(loops) != 1:
-            chk.unknown("C03-R5", f.qual, f, "enlarging loop not found")
+            # the other spelling: one extend per table, each by the same number of fresh elements
+            ext: dict[str, str | None] = {}
+            for c in walk_no_nested(f.node):
+                if isinstance(c, ast.Call) and isinstance(c.func, ast.Attribute) and c.func.attr == "extend" and astq.self_attr(c.func.value) and len(c.args) == 1:
+                    a = c.args[0]
+                    cnt: str | None = None
+                    if isinstance(a, ast.BinOp) and isinstance(a.op, ast.Mult):
+                        lst, k = (a.left, a.right) if isinstance(a.left, ast.List) else (a.right, a.left)
+                        if isinstance(lst, ast.List) and len(lst.elts) == 1 and isinstance(lst.elts[0], ast.Constant):
+                            cnt = norm(k)  # [None] * n: n references to one immutable value
+                    elif isinstance(a, (ast.GeneratorExp, ast.ListComp)) and len(a.generators) == 1 and not a.generators[0].ifs:
+                        it = a.generators[0].iter
+                        if isinstance(it, ast.Call) and dotted(it.func) == "range" and 1 <= len(it.args) <= 2 and (len(it.args) == 1 or norm(it.args[0]) == "0"):
+                            cnt = norm(it.args[-1])
+                    ext[astq.self_attr(c.func.value) or "?"] = cnt
+            if not ext:
+                chk.unknown("C03-R5", f.qual, f, "enlarging loop not found")
+                continue
+            want_e = {"named_coroutines", "routine_infos", "routine_ops"}
+            counts = set(ext.values())
+            chk.decide("C03-R5", f.qual, set(ext) == want_e and len(counts) == 1 and None not in counts, f,
+                       f"the tables are extended by different amounts: { {k: v or 'a fixed / shared-element list' for k, v in sorted(ext.items())} } "
+                       f"(missing: {sorted(want_e - set(ext))})", "three tables are extended by the same number of fresh elements")
             continue
         appended = sorted({astq.self_attr(c.func.value) for c in walk_no_nested(loops[0]) if isinstance(c, ast.Call)  # type: ignore[union-attr]
                            and isinstance(c.func, ast.Attribute) and c.func.attr == "append" and astq.self_attr(c.func.value)})
